@@ -580,8 +580,8 @@ func run(ctx *core.Ctx) error {
 	}
 	_ = mc
 	if ctx.Thorough() {
-		// pre-2.0 rules of q/Q, and the repaired writer in the model
-		for _, cfg := range []string{"MC_ContentOps_pre2.cfg", "MC_ContentOps_fixed.cfg"} {
+		// the rules of q/Q before PDF 2.0
+		for _, cfg := range []string{"MC_ContentOps_pre2.cfg"} {
 			if _, err := ctx.MustHold(core.TLCOpts{Dir: "syntax", Module: "MC_ContentOps", Cfg: cfg, Workers: 16, XssMB: 512,
 				Constants: "see " + cfg, Timeout: ctx.Dur(5, 25)}); err != nil {
 				return err
